@@ -106,8 +106,8 @@ def PartsOf : List Creator → List (List Task) → Prop
   | c :: cs, p :: ps => generate c.name c.result = .ok p ∧ PartsOf cs ps
   | _, _ => False
 
-theorem generateAll_parts (cs : List Creator) (ts : List Task) (h : generateAll cs = .ok ts) :
-    ∃ parts, PartsOf cs parts ∧ ts = parts.flatten := by
+theorem generateAll_parts (cmds : List Name) (cs : List Creator) (ts : List Task)
+    (h : generateAll cmds cs = .ok ts) : ∃ parts, PartsOf cs parts ∧ ts = parts.flatten := by
   induction cs generalizing ts with
   | nil => simp [generateAll] at h; subst h; exact ⟨[], trivial, rfl⟩
   | cons c rest ih =>
@@ -117,9 +117,11 @@ theorem generateAll_parts (cs : List Creator) (ts : List Task) (h : generateAll 
     · rename_i seg hseg
       split at h
       · simp at h
-      · rename_i more hmore
-        cases h
-        obtain ⟨ps, hps, hflat⟩ := ih more hmore
-        exact ⟨seg :: ps, ⟨hseg, hps⟩, by simp [hflat]⟩
+      · split at h
+        · simp at h
+        · rename_i more hmore
+          cases h
+          obtain ⟨ps, hps, hflat⟩ := ih more hmore
+          exact ⟨seg :: ps, ⟨hseg, hps⟩, by simp [hflat]⟩
 
 end DoitModel.Load
